@@ -70,6 +70,9 @@ func checkC14(c C14Case, o *Obs) (err error) {
 		}
 	}()
 	seqCopy := bytes.Clone(seq)
+	if c.Kind != "amino" {
+		warmSequtil(c.Seq, o)
+	}
 	o.Class("kind:" + c.Kind)
 	switch c.Kind {
 	case "amino":
@@ -239,6 +242,24 @@ func exhaustiveC14(thorough bool, emit func(C14Case) bool) {
 			return
 		}
 	}
+	// a megabase coding sequence, valid and with one, two and three foreign bytes far apart: the
+	// panic must reach the caller
+	{
+		n := 1<<20 + 2
+		mb := realDNA(n, 11, false, true)
+		if !emit(C14Case{Kind: "translate", Seq: mb, Cut: n / 3}) {
+			return
+		}
+		for _, positions := range [][]int{{n / 2}, {1000, n - 1000}, {0, n / 2, n - 1}, {1<<18 - 1, 1 << 18, 3 << 18}} {
+			bad := bytes.Clone(mb)
+			for _, pos := range positions {
+				bad[pos] = "NU@x"[pos%4]
+			}
+			if !emit(C14Case{Kind: "translate", Seq: bad}) {
+				return
+			}
+		}
+	}
 	all := make([]byte, 256)
 	for i := range all {
 		all[i] = byte(i)
@@ -318,7 +339,8 @@ func exhaustiveC14(thorough bool, emit func(C14Case) bool) {
 }
 
 func propC14() Prop[C14Case] {
-	return Prop[C14Case]{ID: "C14", Gen: genC14, Exhaustive: exhaustiveC14, Check: checkC14}
+	big := func(c C14Case) bool { return len(c.Seq) >= 1<<20 && c.Kind == "translate" }
+	return Prop[C14Case]{ID: "C14", Gen: genC14, Exhaustive: exhaustiveC14, Check: checkC14, Risky: big, MustTerminate: big}
 }
 
 func TestC14(t *testing.T) { Run(t, propC14()) }
